@@ -133,7 +133,7 @@ fn main() {
             }
             ctx.exhaustive.insert(format!("all functions x all variables, n={}", n), true);
         } else {
-            let reps = if thorough { 12 } else { 1 };
+            let reps = if thorough { 150 } else { 2 };
             let mut idx = 0usize;
             for _ in 0..reps {
                 for v in 0..n {
